@@ -31,4 +31,44 @@ def avgWeights1 (S D : Axis) (j : Int) : List (Int × Int) :=
     all up-sampling kernels): `floor((D.edge j + D.p/2 - S.o) / S.p)` in doubled coordinates -/
 def nearestIdx (S D : Axis) (j : Int) : Int := (2 * (D.edge j - S.o) + D.p) / (2 * S.p)
 
+/-- a source image as a lookup: `none` = invalid or outside the array -/
+abbrev ImgO := Int → Int → Option Rat
+
+/-- `average`: area-weighted mean over the valid source pixels that overlap destination pixel `(jr, jc)`;
+    valid iff at least one valid source pixel overlaps it (R1) -/
+def avg2 (Sr Sc Dr Dc : Axis) (img : ImgO) (jr jc : Int) : Option Rat :=
+  let wr := avgWeights1 Sr Dr jr
+  let wc := avgWeights1 Sc Dc jc
+  wmean (wr.flatMap fun iw => wc.filterMap fun kv => (img iw.1 kv.1).map fun x => (((iw.2 * kv.2 : Int) : Rat), x))
+
+/-- `nearest`: the source pixel containing the destination pixel centre (R2 with a 1 x 1 support) -/
+def nearest2 (Sr Sc Dr Dc : Axis) (img : ImgO) (jr jc : Int) : Option Rat :=
+  img (nearestIdx Sr Dr jr) (nearestIdx Sc Dc jc)
+
+/-- 1-D bilinear support of destination pixel `j`: the two source pixels whose centres bracket the destination
+    centre, with weights in units of `1/(2·S.p)`: `u = (2(D.edge j - S.o) + D.p - S.p) / (2 S.p)`, `i0 = floor u` -/
+def bilinWeights1 (S D : Axis) (j : Int) : List (Int × Int) :=
+  let num := 2 * (D.edge j - S.o) + D.p - S.p
+  let den := 2 * S.p
+  let i0 := num / den
+  let t := num - i0 * den          -- fractional part times den, 0 ≤ t < den
+  [(i0, den - t), (i0 + 1, t)]
+
+/-- `bilinear` when up-sampling (R2): valid iff the source pixel containing the centre is valid; value = weighted mean
+    over the valid pixels of the 2 x 2 support, weights renormalised -/
+def bilinear2 (Sr Sc Dr Dc : Axis) (img : ImgO) (jr jc : Int) : Option Rat :=
+  match nearest2 Sr Sc Dr Dc img jr jc with
+  | none => none
+  | some _ =>
+    wmean ((bilinWeights1 Sr Dr jr).flatMap fun iw => (bilinWeights1 Sc Dc jc).filterMap fun kv =>
+      (img iw.1 kv.1).map fun x => (((iw.2 * kv.2 : Int) : Rat), x))
+
+inductive Resampling | average | nearest | bilinear deriving Repr, DecidableEq
+
+def resample2 (m : Resampling) (Sr Sc Dr Dc : Axis) (img : ImgO) (jr jc : Int) : Option Rat :=
+  match m with
+  | .average => avg2 Sr Sc Dr Dc img jr jc
+  | .nearest => nearest2 Sr Sc Dr Dc img jr jc
+  | .bilinear => bilinear2 Sr Sc Dr Dc img jr jc
+
 end Homonim
